@@ -101,8 +101,9 @@ def run_histories(ctx, progs, defs, hs, verdicts, cpu=5):
                 cnt["known_F7"] += 1
                 ctx.known_finding(f, "%s; then %s" % (" ; ".join(rg.goal_text(a) for a in h[:j]), rg.goal_text(h[j])))
             else:
-                ctx.violation(d)
                 cnt["history_violations"] += 1
+                if cnt["history_violations"] <= 5:
+                    ctx.violation(d)
     return cnt
 
 
